@@ -409,7 +409,56 @@ func localsOf(fn *ssa.Function) map[string]string {
 			}
 		}
 	}
+	// the signatures of the function literals, in source order: `closure[k]` clauses are re-anchored by signature when
+	// literals are added or removed (see closureBaseOrdinal)
+	for i, af := range fn.AnonFuncs {
+		out[fmt.Sprintf("$closure%d", i)] = af.Signature.String()
+	}
 	return out
+}
+
+// closureBaseOrdinal: the ordinal a function literal had when the baseline was taken. Literals are matched by signature
+// and by their rank among the literals of that signature; if the number of literals of that signature changed, the
+// ordinal is kept as it is (a specification that then no longer fits is dropped as a clause).
+func closureBaseOrdinal(w *World, fn *ssa.Function, cur int) int {
+	base := w.BaseLocals[funcDisplayName(fn)]
+	if base == nil || cur < 0 || cur >= len(fn.AnonFuncs) {
+		return cur
+	}
+	var bsigs []string
+	for i := 0; ; i++ {
+		sg, ok := base[fmt.Sprintf("$closure%d", i)]
+		if !ok {
+			break
+		}
+		bsigs = append(bsigs, sg)
+	}
+	if len(bsigs) == 0 {
+		return cur
+	}
+	sig := fn.AnonFuncs[cur].Signature.String()
+	rank, ncur := 0, 0
+	for i, af := range fn.AnonFuncs {
+		if af.Signature.String() == sig {
+			if i < cur {
+				rank++
+			}
+			ncur++
+		}
+	}
+	var bidx []int
+	for i, sg := range bsigs {
+		if sg == sig {
+			bidx = append(bidx, i)
+		}
+	}
+	if len(bidx) != ncur {
+		if len(bidx) == 0 {
+			return -1 // a literal of a signature that did not exist: it has no specification
+		}
+		return cur
+	}
+	return bidx[rank]
 }
 
 // localRenames: a local named in the baseline that no longer exists is identified with the only new local of the same
@@ -422,11 +471,14 @@ func localRenames(w *World, fn *ssa.Function) map[string]string {
 	cur := localsOf(fn)
 	out := map[string]string{}
 	for name, t := range base {
-		if _, still := cur[name]; still || t == "?" {
+		if _, still := cur[name]; still || t == "?" || strings.HasPrefix(name, "$closure") {
 			continue
 		}
 		var cands []string
 		for n2, t2 := range cur {
+			if strings.HasPrefix(n2, "$closure") {
+				continue
+			}
 			if _, was := base[n2]; !was && t2 == t {
 				cands = append(cands, n2)
 			}
